@@ -264,3 +264,8 @@ pub proof fn lemma_impl_descendant_containers<'a, T: Queryable>(s: Segment, x: S
     lemma_containers_fix(containers(mapped(x, d)));
     lemma_impl_seg_ignores_scalars(s, mapped(x, dc), mapped(x, d), root);
 }
+
+// the evaluator's nodelist for a whole query
+pub open spec fn impl_query<'a, T: Queryable>(q: JpQuery, root: &'a T) -> Seq<Node<'a, T>> {
+    impl_segs(q.segments@, seq![root_node(root)], root)
+}
